@@ -29,7 +29,7 @@ ASSUMPTIONS = [
     "end-to-end cases: reference engine semantics; Polar's printed closed forms are used for the symbolic confirmation only after they "
     "agree with the reference engine at all L sampled n; parametric programs are skipped (relations at one parameter value need not be generic)",
 ]
-TIMEOUT = {"quick": 60, "thorough": 120}
+TIMEOUT = {"quick": 45, "thorough": 120}
 DEADLINE = {"quick": 75, "thorough": 1100}
 MIN_DECIDING = {"quick": 60, "thorough": 600}
 NDIRECT = {"quick": 150, "thorough": 2600}
@@ -51,16 +51,10 @@ def generate(seed, tier):
         cs = K.harness_seed(seed, ID, i)
         cases.append(CF.gen_direct(cs, tier, allow_alg=(tier != "quick"), rational_share=0.6))
     cli = CF.gen_cli(lambda i: K.harness_seed(seed, ID, i), NCLI[tier], tier)
-    out = []
-    step = max(1, len(cases) // max(1, len(cli)))
-    ci = 0
-    for i, c in enumerate(cases):
-        out.append(c)
-        if i % step == step - 1 and ci < len(cli):
-            out.append(cli[ci])
-            ci += 1
-    out += cli[ci:]
-    return out
+    for c in cases:
+        if c["d"] != 0:
+            c["timeout"] = 40 if tier == "quick" else 60      # sympy's EX-domain groebner may run for minutes
+    return CF.order_cases(cases, cli)
 
 
 def worker_init(tier):
@@ -101,7 +95,7 @@ def relation_space(fld, monos, value_rows, eps, res):
     return confirmed, len(cands)
 
 
-def membership_violations(confirmed, basis_exprs, names, fld, res, describe, diag_fn):
+def membership_violations(confirmed, basis_exprs, names, fld, res, describe):
     q_exprs = [CF.poly_to_sympy(q, names, fld) for q in confirmed]
     inside, _G = CF.ideal_membership(q_exprs, basis_exprs, names, fld)
     res["comparisons"] += len(q_exprs)
@@ -109,15 +103,14 @@ def membership_violations(confirmed, basis_exprs, names, fld, res, describe, dia
     if not missing:
         return
     missing.sort(key=lambda t: (max(sum(m) for m, _ in t[0]), len(t[0])))
-    diag = diag_fn()
-    key = CF.attribute(diag)
+    key, diag, fixed = CF.diagnose_and_key(
+        names, lambda rec: all(CF.ideal_membership([e for _, e in missing[:MAX_REPORT]], rec, names, fld)[0]))
     for q, e in missing[:MAX_REPORT]:
         res["violations"].append({
             "kind": "relation-not-generated" if basis_exprs else "relation-exists-but-none-reported", "key": key,
             "detail": (f"relation {e} = 0 holds identically for {describe} but does not reduce to 0 modulo Polar's basis "
                        f"{[str(b) for b in basis_exprs]} ({len(missing)} of {len(confirmed)} confirmed relations of degree <= D missing)"
-                       f" | exponent lattice returned for bases {diag['bases']}: {diag['lattice']}, vectors violating prod b^v=1: "
-                       f"{diag['bad_vectors']}, rational kernel non-integral: {diag['nonintegral']}"),
+                       " | " + CF.diag_text(diag, fixed)),
             "relation": str(e), "polar_basis": [str(b) for b in basis_exprs], "lattice": diag["lattice"],
             "bad_vectors": diag["bad_vectors"],
         })
@@ -148,7 +141,7 @@ def run_direct_case(case, tier):
     confirmed, ncand = relation_space(fld, monos, value_rows, eps, res)
     describe = "; ".join(f"{nm} = {ep.show()}" for nm, ep in zip(names, eps))
     if confirmed:
-        membership_violations(confirmed, basis_exprs, names, fld, res, describe, CF.lattice_diagnosis)
+        membership_violations(confirmed, basis_exprs, names, fld, res, describe)
     nonconst = sum(1 for ep in eps if not ep.is_constant())
     res["nontrivial"] = bool(confirmed) or (not basis_exprs and nonconst >= 2)
     res["verdict"] = "violated" if res["violations"] else "held"
@@ -207,7 +200,7 @@ def run_cli_case(case, tier):
     n0 = s + 1
     N = n0 + L - 1
     try:
-        table = CF.oracle_goal_table(case["text"], {}, specs, N, max_states=20000 if tier == "quick" else 100000)
+        table = CF.oracle_goal_table(case["text"], {}, specs, N, max_states=4000 if tier == "quick" else 40000)
     except CF.CliSkip as e:
         res.update(verdict="inconclusive", reason=e.reason, detail=e.detail)
         return res
@@ -223,7 +216,7 @@ def run_cli_case(case, tier):
     confirmed, ncand = relation_space(fld, monos, value_rows, eps, res)
     describe = "program goals " + "; ".join(f"{g} = {ep.show()}" for g, ep in zip(gids, eps))
     if confirmed:
-        membership_violations(confirmed, basis_exprs, gids, fld, res, describe, CF.lattice_diagnosis)
+        membership_violations(confirmed, basis_exprs, gids, fld, res, describe)
     nonconst = sum(1 for ep in eps if not ep.is_constant())
     res["nontrivial"] = bool(confirmed) or (not basis_exprs and nonconst >= 2)
     res["verdict"] = "violated" if res["violations"] else "held"
